@@ -486,3 +486,15 @@ Proof.
   rewrite E0, E1. intros Hnil. apply (f_equal (@length char)) in Hnil.
   rewrite firstn_length, skipn_length in Hnil. cbn [length] in Hnil. lia.
 Qed.
+
+(* F20 in general: whatever the state before (also inside an enclosing capture block), after an
+   inner `with capture()` block a problem is never collected: it is raised, printed, or its
+   rendering crashes *)
+Lemma inner_capture_switches_outer_off g c e :
+  let '(g1, _, _) := with_capture g c in
+  forall i, snd (report_error g1 e) <> RAppended i.
+Proof.
+  rewrite capture_collects. intros i. unfold report_error. cbn [g_cap g_strict].
+  destruct (g_strict g); [discriminate|].
+  unfold print_error. destruct (format_error e k_warning); cbn; discriminate.
+Qed.
